@@ -94,6 +94,11 @@ func patches(iter int) int {
 			cl, _ := c.Client()
 			vm := c.NewMatcher()
 			ro := c.RemediationOptions()
+			if it%2 == 1 {
+				// every other iteration with an explicit vulnerability list (naming a subset) and an ignore list
+				ro.ExplicitVulns = []string{"V-1", "V-2"}
+				ro.IgnoreVulns = []string{"V-unrelated"}
+			}
 			ctx := context.Background()
 			resolved, err := guidedremediation.VerifResolveManifest(ctx, cl, vm, m, &ro)
 			if err != nil {
